@@ -14,7 +14,10 @@ use std::time::Instant;
 pub mod pt;
 pub mod supervise;
 
-pub const VERIF_ROOT: &str = "/verif";
+/// root for evidence/, replays/, known_findings.json (env VERIF_ROOT overrides; used by mutant runs)
+pub fn verif_root() -> PathBuf {
+    PathBuf::from(std::env::var("VERIF_ROOT").unwrap_or_else(|_| "/verif".to_string()))
+}
 pub const DEFAULT_SEED: u64 = 20260929;
 pub const WORKERS: usize = 16;
 
@@ -156,19 +159,26 @@ pub struct Check {
 }
 
 fn load_known(id: &str) -> Vec<KnownFinding> {
-    let p = Path::new(VERIF_ROOT).join("known_findings.json");
-    let Ok(s) = std::fs::read_to_string(&p) else {
-        return vec![];
-    };
-    let v: Value = match serde_json::from_str(&s) {
-        Ok(v) => v,
-        Err(e) => {
-            eprintln!("known_findings.json unreadable: {e}");
-            std::process::exit(2)
-        }
-    };
+    let mut files = vec![PathBuf::from("/verif/known_findings.json")];
+    if let Ok(x) = std::env::var("VERIF_KNOWN_EXTRA") {
+        files.push(PathBuf::from(x));
+    }
+    let mut all = vec![];
+    for p in files {
+        let Ok(s) = std::fs::read_to_string(&p) else {
+            continue;
+        };
+        let v: Value = match serde_json::from_str(&s) {
+            Ok(v) => v,
+            Err(e) => {
+                eprintln!("{p:?} unreadable: {e}");
+                std::process::exit(2)
+            }
+        };
+        all.extend(v["findings"].as_array().cloned().unwrap_or_default());
+    }
     let mut out = vec![];
-    for f in v["findings"].as_array().cloned().unwrap_or_default() {
+    for f in all {
         if f["property"].as_str() == Some(id) {
             out.push(KnownFinding {
                 property: id.to_string(),
@@ -353,7 +363,7 @@ impl Check {
             }
             seen.insert(f.signature.clone());
         }
-        let dir = Path::new(VERIF_ROOT).join("replays").join(self.id);
+        let dir = verif_root().join("replays").join(self.id);
         let _ = std::fs::create_dir_all(&dir);
         let body = json!({
             "property": self.id,
@@ -448,7 +458,7 @@ impl Check {
             "violations": viol.len(),
         });
         if self.replay.is_none() {
-            let dir = Path::new(VERIF_ROOT).join("evidence");
+            let dir = verif_root().join("evidence");
             let _ = std::fs::create_dir_all(&dir);
             let p = dir.join(format!("{}.json", self.id));
             if let Err(e) = std::fs::write(&p, serde_json::to_string_pretty(&ev).unwrap()) {
